@@ -144,7 +144,10 @@ def scenario(rotate):
                   ("replay-older-targets", (7, 7, 4, 4), 1))
     else:
         states = (("cur", (5, 5, 5, 5), 0), ("new", (6, 6, 6, 6), 0),
-                  ("replay-all-older", (4, 4, 4, 4), 0), ("replay-older-timestamp", (4, 5, 5, 5), 0))
+                  ("replay-all-older", (4, 4, 4, 4), 0), ("replay-older-timestamp", (4, 5, 5, 5), 0),
+                  # older than what was trusted before the interruption in ONE role, as new as the interrupted cycle's
+                  # repository in the others: a stored file lost by the interruption is not covered up by the others
+                  ("replay-older-timestamp-rest-new", (4, 6, 6, 6), 0), ("replay-older-snapshot-rest-new", (7, 4, 6, 6), 0))
     for tag, vers, epoch in states:
         signers = {"snapshot": [1], "targets": [2], "timestamp": [4]} if epoch else None
         _, f = scen.simple_repo(s, versions=vers, root=r1, signers=signers)
@@ -226,13 +229,16 @@ def one_scenario(chk, base, rotate):
     tids = {c["tid"] for c in calls}
     chk.extra.setdefault("datastore_syscalls", {})[tag] = [c["text"] for c in calls][:40]
     chk.extra["store_write_method"] = "temporary file + rename" if atomic else "truncate and write"
-    if not r2 or r2[0][0] != 0 or len(tids) != 1 or not calls:
+    if not r2 or r2[0][0] != 0 or not calls:
         chk.broken("C15 dry run unusable (result %s, threads %s)" % (r2 and r2[0], sorted(tids)), {"calls": calls[:10]})
         return
-    tid = calls[0]["tid"]
+    # strace counts "when=k" per thread. The datastore's calls normally sit on one thread; when they are spread
+    # over several (a datastore that writes through tokio::fs, say) every thread's k-th call is hit: runs in which
+    # exactly one datastore call was hit are used, as before, the others are discarded
+    chk.extra.setdefault("datastore_threads", {})[tag] = len(tids)
     points = []
     for name in ("write", "rename", "renameat", "renameat2", "unlink", "unlinkat"):
-        n = counts.get((tid, name), 0)
+        n = max([counts.get((t, name), 0) for t in tids] or [0])
         if n:
             for k in range(1, 2 * n + 6):
                 points.append((name, k, "kill"))
